@@ -577,8 +577,10 @@ impl<E: Effect, R: CommandReceiver<E>, S: EventSender<E>> Worker<E, R, S> {
                 // Set the process result to the error and clear frames to complete it - but only
                 // while the awaiter's open select still lists the failed process. An awaiter
                 // whose select has already completed through another source has moved on.
+                // A process that has already finished keeps the result it has.
                 if let Some(process) = self.executor.get_process_mut(awaiter)
                     && process.awaiting.contains_key(&awaited)
+                    && process.result.is_none()
                 {
                     process.result = Some(Err(error));
                     process.frames.clear(); // Complete the process
